@@ -8,7 +8,7 @@ equivalent spellings) and evaluated here.
 Expression nodes (each carries its static type T in {"I","F","S","A","M"}):
   ("lit",T,v) ("var",T,name) ("bin",T,op,l,r) ("un",T,op,e) ("cond",T,c,a,b) ("idx","I",e,i)
   ("ridx","I",e,i) ("rng",T,e,i,j) ("sizeof","I",e) ("arr","A",[e..]) ("call",T,fname,[args]) ("tofloat","F",e)
-  ("midx","I",m,k)
+  ("midx","I",m,k) ("mk1","M",k,v)
 Statement nodes:
   ("assign",target,op,e)  target = ("v",T,name) | ("elem",name,idx)  | ("melem",name,key)
   ("incdec",target,kind)  kind in "++x","x++","--x","x--"
@@ -131,6 +131,9 @@ class Ref:
             return c[i:j + 1]
         if k == "sizeof":
             return len(self.ev(e[2], env))
+        if k == "mk1":
+            key = self.ev(e[2], env)
+            return {key: self.ev(e[3], env)}
         if k == "arr":
             return [self.ev(x, env) for x in e[2]]
         if k == "tofloat":
